@@ -45,6 +45,8 @@ func runOne(w *rec.Writer, d caseDesc) {
 		runStacked(w, d)
 	case "C":
 		runE2E(w, d, nil)
+	case "D":
+		runAdmission(w, d)
 	}
 }
 
@@ -83,6 +85,9 @@ func main() {
 	}
 	for i := 0; i < nB; i++ {
 		runStacked(w, caseDesc{Kind: "B", Seed: o.Seed, Idx: i})
+	}
+	for i := 0; i < o.N/30; i++ {
+		runAdmission(w, caseDesc{Kind: "D", Seed: o.Seed, Idx: i})
 	}
 	runE2EBatch(w, o.Seed, nC)
 	closeE2E()
